@@ -1,6 +1,13 @@
 package auto
 
-import "go.pennock.tech/tabular"
+import (
+	"go.pennock.tech/tabular"
+	"go.pennock.tech/tabular/csv"
+	"go.pennock.tech/tabular/json"
+	"go.pennock.tech/tabular/markdown"
+	"go.pennock.tech/tabular/properties/align"
+	"go.pennock.tech/tabular/texttable"
+)
 
 // VerifC09_total: every renderer is total on every table buildable through the public API.
 func VerifC09_total() {
@@ -179,4 +186,56 @@ func VerifC09_content() {
 	t.AddRowItems(vfStringOf("c", L, "\"a,\n|<&\\"), "v")
 	vfRenderAll(t, 1, true)
 	vfAssert(true, "content-no-panic")
+}
+
+// VerifC09_orders: renderers are total whatever was rendered before on the same table (every ordered
+// pair of formats, starting from a table no renderer has seen), also with a column aligned right or
+// centre and an item that declares a width or height smaller than its text.
+func VerifC09_orders() {
+	t := tabular.New()
+	if vfChoice("hdr", 2) == 1 {
+		t.AddHeaders("h1", "h2")
+	}
+	switch vfChoice("item", 3) {
+	case 0:
+		t.AddRowItems("plain", "x")
+	case 1:
+		t.AddRowItems(vfSizedItem{s: "wide line\nb", w: vfChoice("w", 3), h: 1 + vfChoice("h", 3)}, "x")
+		vfTag("sized-item")
+	case 2:
+		t.AddRowItems(vfSizedItem{s: "abc", w: 0, h: 0}, "x")
+		vfTag("sized-item")
+	}
+	t.AddRowItems("second")
+	switch vfChoice("align", 3) {
+	case 1:
+		t.Column(1).SetProperty(align.PropertyType, align.Right)
+	case 2:
+		t.Column(0).SetProperty(align.PropertyType, align.Center)
+	}
+	render := func(f int) {
+		var out string
+		var err error
+		switch f {
+		case 0:
+			out, err = csv.Render(t)
+		case 1:
+			out, err = json.Render(t)
+		case 2:
+			out, err = markdown.Render(t)
+		case 3:
+			out, err = texttable.Render(t)
+		case 4:
+			out, err = Render(t, "html")
+		case 5:
+			out, err = Render(t, "none")
+		}
+		if err != nil {
+			vfAssert(out == "", "orders-error-means-no-text")
+		}
+		vfObserveBool(vfName("err", f), err != nil)
+	}
+	render(vfChoice("first", 6))
+	render(vfChoice("second", 6))
+	vfAssert(true, "orders-no-panic")
 }
